@@ -17,6 +17,7 @@ BUILTIN_ENUMS = {
     'Ordering': ['Less', 'Equal', 'Greater'],
     'Bound': ['Included', 'Excluded', 'Unbounded'],
     'Either': ['Left', 'Right'],
+    'LevelInner': ['Trace', 'Debug', 'Info', 'Warn', 'Error'],
 }
 
 
